@@ -1,2 +1,1 @@
-// ---- prelude/std_cmp.rs : assumed std behaviour — `==`/`!=` on core::cmp::Ordering is structural equality
-pub assume_specification [<Ordering as PartialEq>::eq] (a: &Ordering, b: &Ordering) -> (r: bool) ensures r == (*a == *b);
+// ---- prelude/std_cmp.rs : (moved to common.rs so that every unit has it)
